@@ -189,7 +189,7 @@ func (m *Model) callEffects(c *ssa.CallCommon, out *Effects) {
 		if m.spec != nil && c.StaticCallee() != nil {
 			ctr = m.spec.Contracts[m.fnName[callee]]
 		}
-		if ctr != nil && (ctr.HasMod || len(ctr.Updates) > 0) {
+		if ctr != nil && (ctr.HasMod || ctr.HasUpd) {
 			// ghost effects of a function under contract are exactly its `updates` clause
 			// (proved at its returns); heap effects: see below
 			for _, g := range ctr.Updates {
